@@ -75,6 +75,8 @@ func init() {
 		"reflect.Zero":                 ext۰reflect۰Zero,
 
 		"math.Abs":             extMathAbs,
+		"math.Max":             extMathMaxMin(true),
+		"math.Min":             extMathMaxMin(false),
 		"math.Copysign":        extMathCopysign,
 		"math.Float64bits":     extMathFloat64bits,
 		"math.Float64frombits": extMathFloat64frombits,
@@ -213,6 +215,41 @@ func extMathAbs(fr *frame, args []value) value {
 		return mkval(fr.i.tb.fpUn(opFPAbs, t, 0), types.Float64)
 	}
 	return math.Abs(args[0].(float64))
+}
+
+// math.Max / math.Min with Go's special cases (an infinity of the right sign
+// wins over NaN, NaN otherwise, +0 > -0).
+func extMathMaxMin(max bool) externalFn {
+	return func(fr *frame, args []value) value {
+		i := fr.i
+		if !isSym(args[0]) && !isSym(args[1]) {
+			if max {
+				return math.Max(args[0].(float64), args[1].(float64))
+			}
+			return math.Min(args[0].(float64), args[1].(float64))
+		}
+		tb := i.tb
+		x, y := i.lift(args[0]), i.lift(args[1])
+		inf := tb.F64(math.Inf(-1))
+		if max {
+			inf = tb.F64(math.Inf(1))
+		}
+		isInf := tb.Or(tb.fpCmp(opFPEq, x, inf), tb.fpCmp(opFPEq, y, inf))
+		isNaN := tb.Or(tb.fpUn(opFPIsNaN, x, 0), tb.fpUn(opFPIsNaN, y, 0))
+		zero := tb.F64(0)
+		bothZero := tb.And(tb.fpCmp(opFPEq, x, zero), tb.fpCmp(opFPEq, y, zero))
+		xNeg := tb.fpUn(opFPIsNeg, x, 0)
+		var zeros, pickX *Term
+		if max {
+			zeros = tb.Ite(xNeg, y, x)
+			pickX = tb.fpCmp(opFPLt, y, x)
+		} else {
+			zeros = tb.Ite(xNeg, x, y)
+			pickX = tb.fpCmp(opFPLt, x, y)
+		}
+		r := tb.Ite(isInf, inf, tb.Ite(isNaN, tb.F64(math.NaN()), tb.Ite(bothZero, zeros, tb.Ite(pickX, x, y))))
+		return mkval(r, types.Float64)
+	}
 }
 
 func extMathCopysign(fr *frame, args []value) value {
